@@ -105,7 +105,8 @@ EXTRA = {
     'convert_ref': {'proof': ['reveal_strlit("@"); reveal_with_fuel(pieces, 4);'], 'ensures': ['[target_exact C10] pieces(r@).len() >= 2 && pieces(r@)[0] == txt("@"@) && pieces(r@)[1] == txt(ast::Ref({n}).target_s())'], 'serves': 'C10'},
     'convert_expr_flow': {'requires': ['{n}.kind_s() != SyntaxKind::Markup', '[only_for_keyword_expression_nodes] matches!({n}.kind_s(), SyntaxKind::Contextual | SyntaxKind::Conditional | SyntaxKind::WhileLoop | SyntaxKind::FuncReturn | SyntaxKind::ModuleInclude)']},
     'convert_list_item_like': {'requires': ['matches!({n}.kind_s(), SyntaxKind::ListItem | SyntaxKind::EnumItem | SyntaxKind::TermItem)']},
-    'convert_binary': {'closures': ['@closure 0 ret "(d: ArenaDoc<\'a>)"', '  ensures', '    - doc_closed(d@, self.unit_s())']},
+    'convert_binary': {'proof': ['reveal_strlit("("); reveal_strlit(")"); lemma_optional_paren_words_all(self.unit_s(), "("@, ")"@);'], 'closures': ['@closure 0 ret "(d: ArenaDoc<\'a>)"', '  ensures', '    - doc_closed(d@, self.unit_s())',
+                                    '    - [chain_words_preserved C01 C06] unmarked(self.store_s(), binary.node()) ==> w_ok(d@, sig_leaves(binary.node()))']},
     'convert_text': {'ensures': ['[text_exact C08 C10] r@ == txt({n}.full_text_s())'], 'serves': 'C08 C10'},
     'convert_space': {'ensures': ['[space_or_break C08 C09] r@ == (if has_newline_s({n}.text_s()) { DocV::Hardline } else { sp() })'], 'serves': 'C08 C09'},
     'convert_parbreak': {'ensures': ['[break_count C08] r@ == repeat_doc(DocV::Hardline, count_newlines_s({n}.text_s()))'], 'serves': 'C08',
@@ -152,7 +153,7 @@ W_PROVED = {
     # flow-based converters (closure contracts below)
     'convert_spread', 'convert_unary', 'convert_let_binding', 'convert_destruct_assignment', 'convert_expr_flow', 'convert_set_rule',
     'convert_show_rule', 'convert_heading', 'convert_list_item_like', 'convert_math_attach', 'convert_math_frac', 'convert_math_root',
-    'convert_import_item_path', 'convert_import_item_renamed',
+    'convert_import_item_path', 'convert_import_item_renamed', 'convert_binary',
     # wrappers
     'convert_contextual', 'convert_conditional', 'convert_while_loop', 'convert_return', 'convert_include',
     'convert_list_item', 'convert_enum_item', 'convert_term_item',
